@@ -466,7 +466,11 @@ func (fc *FuncCtx) applyContract(con *Contract, callee *ssa.Function, sig *types
 		if err := catchTr(fmt.Sprintf("%s requires %d (at call in %s)", con.Key, i, fc.fnName), func() { t = envPre.trBool(c.E) }); err != nil {
 			panic(trErr(err.Error()))
 		}
-		fc.oblige("pre@"+site, clauseLabel(c, i), reach, t, "precondition of "+shortCallee(key)+": "+c.Src, c.Tags)
+		kind := "pre@" + site
+		if con.Trusted && (callee == nil || !eng.isRepoFn(callee)) && !strings.HasPrefix(con.Key, "iface:"+eng.modPath) && !strings.HasPrefix(con.Key, "funcval:") {
+			kind = "safety/pre@" + site // a dependency's documented panic condition
+		}
+		fc.oblige(kind, clauseLabel(c, i), reach, t, "precondition of "+shortCallee(key)+": "+c.Src, c.Tags)
 	}
 	// recursion: variant must decrease
 	if con.Decreases != nil && fc.topCtx().con != nil && fc.topCtx().con.Decreases != nil && fc.inlineOf == "" && eng.sameSCC(fc.fn, callee, key) {
